@@ -103,6 +103,9 @@ def space(tier):
     sp = sp + [s for s in calls if tier == "thorough" or s.tag[0] == "vcall"]
     # every assignment operator on narrow / wide local, register, pair and predicate targets
     sp = sp + staticprops.gen_assignments(["int8_t", "uint16_t", "int32_t", "uint64_t"] if tier == "quick" else staticprops.T8, ["int8_t", "uint8_t", "int32_t", "uint64_t"] if tier == "quick" else staticprops.T8)
+    # folded-away conditional arms (the two layouts collect the remaining operations differently)
+    fold = [s for s in staticprops.gen_folding() if s.tag[0].startswith("cfold")]
+    sp = sp + [s for s in fold if tier == "thorough" or s.tag[0] in ("cfold4", "cfold5", "cfold6", "cfold7") or s.tag[1] in ("0", "1")]
     return sp
 
 
@@ -167,7 +170,20 @@ def run(ctx):
                 # here only a defect present in ONE layout is a C16 matter
                 fs = r["static"]
                 if set(fs) != {"stmt", "exec"} or fs["stmt"].keys() != fs["exec"].keys():
-                    ctx.report({"program": r["text"], "static": fs}, None, what="only one layout is well-formed: %s" % str(fs)[:200])
+                    # a defect of one layout only: known if every message is explained by a listed static finding
+                    from vf import staticprops as _sp
+
+                    fids = set()
+                    unexplained = False
+                    for f_, cols in fs.items():
+                        for col, msgs in cols.items():
+                            for m_ in msgs:
+                                fid = _sp.attribute(col, m_, s.text)
+                                if fid:
+                                    fids.add(fid)
+                                else:
+                                    unexplained = True
+                    ctx.report({"program": r["text"], "static": fs}, None if unexplained else sorted(fids), what="only one layout is well-formed: %s: %s" % (r["text"][-100:], str(fs)[:200]))
                 else:
                     known_static += 1
         else:
